@@ -195,11 +195,17 @@ class CProg:
             b['iface'].update(ifc)
         return list(comps.values())
 
-    def block_cons(self, blk, vs):
+    def block_cons(self, blk, vs, relax_exp=False):
+        """relax_exp: exponential-cone memberships (a, b, c) are weakened to b >= 0, c >= 0 (hypothesis side only;
+        the caller adds pairing inequalities)."""
         cs = self.row_cons(vs, blk['rows'])
         cs += self.bound_cons(vs, sorted(blk['locals'] | blk['iface']))
         cs += self.soc_cons(vs, [self.qmat[k] for k in blk['cones']])
-        if blk.get('xcones'):
+        if blk.get('xcones') and relax_exp:
+            for k in blk['xcones']:
+                a, b, c = self.xmat[k]
+                cs += [vs[b] >= 0, vs[c] >= 0, vs[b] >= vs[a] + vs[c]]
+        elif blk.get('xcones'):
             from .oracle import expcone
             z3 = z3mod()
             for k in blk['xcones']:
